@@ -9,7 +9,7 @@ use crate::{PropRun, Tier};
 use serde_json::{json, Value};
 use std::time::Duration;
 
-pub const RULE: &str = "scripts of 0..25 lines over the real binary's stdin: uci / isready / ucinewgame / valid position commands / cheap go commands (depth 1..2 on pre-screened positions, movetime <= 20) / unknown lines (first token not a command, no command word as a later token; ASCII and UTF-8) / blank lines, interleaved; ending in quit (possibly with further lines after it) or in end of input (with or without a final newline; stdin closed immediately or after the transcript is complete). Oracle: stdout must parse, with nothing left over and nothing missing, against the slot sequence derived line by line (uci -> 'id ' lines [+ 'option ' lines] then 'uciok'; isready -> 'readyok'; go -> info* then exactly one bestmove; everything else -> nothing; nothing after quit), and the process must exit with status 0 after quit and after end of input (5 s allowance on an idle process; still-alive is corroborated by CPU time still increasing). Non-trivial = >=1 unknown or blank line between two answered commands, or ends by EOF; distinct by script text.";
+pub const RULE: &str = "scripts of 0..25 lines over the real binary's stdin: uci / isready / ucinewgame / valid position commands / cheap go commands (depth 1..2 on pre-screened positions, movetime <= 20) / unknown lines (first token not a command, no command word as a later token; ASCII, UTF-8, and lines containing bytes that are not valid UTF-8) / blank lines, interleaved; ending in quit (possibly with further lines after it) or in end of input (with or without a final newline; stdin closed immediately or after the transcript is complete). Oracle: stdout must parse, with nothing left over and nothing missing, against the slot sequence derived line by line (uci -> 'id ' lines [+ 'option ' lines] then 'uciok'; isready -> 'readyok'; go -> info* then exactly one bestmove; everything else -> nothing; nothing after quit), and the process must exit with status 0 after quit and after end of input (5 s allowance on an idle process; still-alive is corroborated by CPU time still increasing). Non-trivial = >=1 unknown or blank line between two answered commands, or ends by EOF; distinct by script text.";
 
 #[derive(Debug, Clone, PartialEq)]
 enum Slot {
@@ -181,12 +181,17 @@ fn check(bytes: &[u8], stats: &mut Stats) -> Verdict {
 fn judge(sc: &Script, text_lines: &[String], stats: &mut Stats) -> Verdict {
     let text_lines: Vec<String> = text_lines.to_vec();
     let slots = slots_of_text(&text_lines);
-    let mut payload = text_lines.join("\n");
-    if sc.final_newline || text_lines.is_empty() {
-        if !text_lines.is_empty() {
-            payload.push('\n');
+    let mut payload: Vec<u8> = Vec::new();
+    for (i, l) in text_lines.iter().enumerate() {
+        if i > 0 {
+            payload.push(b'\n');
         }
+        payload.extend(script::raw_bytes(l));
     }
+    if sc.final_newline && !text_lines.is_empty() {
+        payload.push(b'\n');
+    }
+    let has_raw = text_lines.iter().any(|l| l.contains(script::RAW_BYTE_MARK));
     let desc = json!({"script": text_lines, "final_newline": sc.final_newline, "ends_with_quit": sc.ends_with_quit, "stdin_closed_before_answers": sc.close_early});
     let mut p = match Proc::spawn() {
         Ok(p) => p,
@@ -195,7 +200,7 @@ fn judge(sc: &Script, text_lines: &[String], stats: &mut Stats) -> Verdict {
     if std::env::var("VERIF_DEBUG").is_ok() {
         eprintln!("C16 script: {}", desc);
     }
-    p.send_raw(payload.as_bytes());
+    p.send_raw(&payload);
     if sc.close_early {
         p.close_stdin();
     }
@@ -305,6 +310,9 @@ fn judge(sc: &Script, text_lines: &[String], stats: &mut Stats) -> Verdict {
     if !sc.after_quit.is_empty() {
         stats.class("lines_after_quit");
     }
+    if has_raw {
+        stats.class("scripts_with_a_line_that_is_not_valid_UTF-8");
+    }
     if gap || !sc.ends_with_quit {
         stats.nontrivial(&payload);
     }
@@ -315,14 +323,14 @@ fn judge(sc: &Script, text_lines: &[String], stats: &mut Stats) -> Verdict {
 pub fn run(tier: Tier, seed: u64, known: &Known) -> PropRun {
     let mut run = PropRun::new("exploration", RULE);
     run.assumptions = vec![
-        "lines end in LF and are valid UTF-8; stderr is not judged".into(),
+        "lines end in LF; unknown lines may contain bytes that are not valid UTF-8 (command lines never do); stderr is not judged".into(),
         "termination is a liveness statement decided with a 5 s allowance on an idle process (about 300x the start-up time); a go that never answers is inconclusive (exit 2), not a violation".into(),
     ];
     if crate::blackbox::engine_path().is_none() {
         run.inconclusive = Some("engine binary not built".into());
         return run;
     }
-    let part = Part { name: "scripts", cases: tier.pick(600, 20_000), min_len: 16, max_len: 1200, max_shrink: 60, threads: crate::props::threads() };
+    let part = Part { name: "scripts", cases: tier.pick(1_500, 20_000), min_len: 16, max_len: 1200, max_shrink: 60, threads: crate::props::threads() };
     let (st, fl) = run_part(&part, seed, known, check);
     run.stats.merge(st);
     run.failure = fl;
